@@ -9,7 +9,7 @@ from vlib.runner import Stats, Violation, sut
 
 ID = "C16"
 RULE = (
-    "case = list of 0..15 events (ms-grid timestamps, us durations, duplicates, ids absent or shared between events as when reads of several buckets are concatenated) with data over keys {a,b,c} each present or absent, values from "
+    "case = list of 0..15 events (ms-grid timestamps, us durations, duplicates, ids absent or shared between events as when reads of several buckets are concatenated) with data over keys {a,b,c} each present or absent (put into the dict in an order that varies from event to event), values from "
     "{'x','y',1,2,null,['x'],['x','y'],0,'',[],'1','None',['1'],[1]} x non-empty key list x filter key/values x count >= 0. Oracles: merge_events_by_keys against grouping by the tuple "
     "((k present?, value) for k in keys): one output per group, same presence/value pattern, exact us duration sum, total conserved; chunk_events_by_key "
     "(every event has the key): subevents concatenate to the input, share the chunk's value, durations add up, runs maximal when input is time-sorted with "
@@ -47,7 +47,7 @@ def strategy(draw, tier="quick"):
             if draw(st.integers(0, 2)) > 0:
                 data[k] = draw(st.sampled_from(pool))
         dur = draw(st.one_of(st.sampled_from([0, 1, 999, 1000, 10**6]), st.integers(0, 5 * 10**6)))
-        ev = {"ts_ms": t, "dur_us": dur, "data": data, "id": draw(st.sampled_from([None, None, 0, 1, 2, 7]))}  # ids are unique per bucket only: events of a list may share one
+        ev = {"ts_ms": t, "dur_us": dur, "data": data, "korder": draw(st.sampled_from(["abc", "abc", "cba", "bac", "cab"])), "id": draw(st.sampled_from([None, None, 0, 1, 2, 7]))}  # ids are unique per bucket only: events of a list may share one
         evs.append(ev)
         if sorted_mode:
             t += dur // 1000
@@ -67,6 +67,7 @@ def strategy(draw, tier="quick"):
 
 def _mk(Event, e, i=None, extra=None):
     d = json.loads(json.dumps(e["data"]))
+    d = {k: d[k] for k in list(e.get("korder", "")) + sorted(d) if k in d}  # the order in which the keys were put into the dict varies from event to event
     if extra:
         d.update(extra)
     return Event(id=i, timestamp=gen.dt_utc(BASE_US + e["ts_ms"] * 1000), duration=timedelta(microseconds=e["dur_us"]), data=d)
